@@ -701,6 +701,24 @@ func (e *Env) call(n ECall) Term {
 		}
 		e.c.declare("(declare-fun closfn (Int) Int)")
 		return mk(SBool, "(= (closfn %s) %d)", arg(0).S, e.c.V.typeID("fn:"+key))
+	case "funcref":
+		// funcref("KEY"): the function value of the named top-level function
+		need(1)
+		fs, ok := n.Args[0].(EStr)
+		if !ok {
+			evalFail("funcref(\"KEY\")")
+		}
+		key := fs.V
+		fn := e.c.V.fnByKey[key]
+		if fn == nil {
+			if i := strings.Index(e.c.Key, "."); i >= 0 {
+				fn = e.c.V.fnByKey[e.c.Key[:i+1]+key]
+			}
+		}
+		if fn == nil {
+			evalFail("funcref: no function %s", fs.V)
+		}
+		return e.c.funcRef(fn)
 	case "bound":
 		// bound(x, i): the i-th captured variable (its address) or captured reference of the function value x
 		need(2)
